@@ -763,7 +763,11 @@ def part_from_matchfile(
             # previous measure ends after its notated length at the latest, and
             # add_measures (below) fills the stretch up to this barline
             prev_end_in_divs = min(barline_in_divs, prev_notated_end_in_divs)
-            if prev_end_in_divs <= prev_measure.start.t:
+            if (
+                prev_end_in_divs <= prev_measure.start.t
+                or barline_in_divs - prev_end_in_divs <= 1
+            ):
+                # (also absorbs a rounding difference of one division)
                 prev_end_in_divs = barline_in_divs
             part.add(prev_measure, None, prev_end_in_divs)
         prev_measure = score.Measure(number=measure_counter + 1, name=str(measure_name))
